@@ -25,6 +25,8 @@ def run(ctx, rep):
     lib = ctx.lib
     NR.float_ctor(rep, lib)
     NR.float_window(rep, lib)
+    NR.num_eq(rep, ctx)
+    NR.num_hash(rep, ctx)
     # ------------------------------------------------------------ EQ-SAME
     r = rep.rule("C10-EQ-SAME", "`=` and `!=` resolve to PartialEq for JsonValue; ContextKey's PartialEq, Eq and Hash "
                  "are derived; the duplicate set is a HashSet<ContextKey>", floor=6, analysis="A1 resolved callees + impl facts")
